@@ -8,9 +8,10 @@ SV=sys.argv[4] if len(sys.argv)>4 else V   # variant letter under which the chan
 wt=f'/tmp/{PFX}-{P}'; out=f'/tmp/{PFX}-{P}-out/{V}'
 env=dict(os.environ,GOFLAGS='-mod=mod',GOPROXY='off',GOSUMDB='off',GOTOOLCHAIN='local')
 head=''.join(open(f'{out}/demo_test.go').readlines()[:6])
-m=re.search(r"go test[^\n]*?-run\s+'?([A-Za-z0-9_|^$]+)'?\s+(\S+)",head)
+line=[l for l in head.split('\n') if 'go test' in l]
+m=re.search(r"-run\s+'?([A-Za-z0-9_|^$]+)'?",line[0]) if line else None
 if not m: print('cannot parse demo header',head); sys.exit(2)
-run,target=m.group(1),m.group(2).rstrip("'")
+run=m.group(1); target=line[0].split()[-1].rstrip("'")
 cd=re.search(r"cd (\S+) &&",head)
 if cd and target=='.': target='./'+cd.group(1).strip('/')+'/'
 d=os.path.normpath(os.path.join(wt,target))
